@@ -1425,6 +1425,66 @@ where
     }
 }
 
+/// Probes used by an external verification harness (feature `zombiezen_redo_rs_verif`).
+#[cfg(feature = "zombiezen_redo_rs_verif")]
+pub mod verif_hooks {
+    use super::*;
+
+    /// One row of the `Deps` table as `File::deps` reports it.
+    pub type DepRow = (char, String);
+
+    /// Exercises the dependency-recording functions of `File` on a scratch
+    /// project rooted at the current directory (which must be empty) and
+    /// returns what `File::deps` reports after each step.
+    ///
+    /// Steps: declare `s1` (modified) and `s2` (created) for target `t`;
+    /// `zap_deps1`; re-declare `s1`; `zap_deps2`.
+    pub fn deps_probe() -> Result<Vec<Vec<DepRow>>, RedoError> {
+        let cwd = std::env::current_dir().map_err(RedoError::opaque_error)?;
+        std::env::set_var("REDO", "1");
+        std::env::set_var("REDO_BASE", &cwd);
+        std::env::set_var("REDO_STARTDIR", &cwd);
+        std::env::remove_var("REDO_RUNID");
+        std::env::remove_var("REDO_TARGET");
+        std::env::remove_var("REDO_PWD");
+        let env = Env::inherit()?;
+        let mut ps = ProcessState::init(env)?;
+        let mut ptx = ProcessTransaction::new(&mut ps, TransactionBehavior::Immediate)
+            .map_err(RedoError::opaque_error)?;
+        let mut out = Vec::new();
+        let mut t = File::from_name(&mut ptx, "t", true)?;
+        t.set_generated();
+        t.save(&mut ptx)?;
+        let mut snap = |t: &File, ptx: &ProcessTransaction| -> Result<Vec<DepRow>, RedoError> {
+            let mut rows: Vec<DepRow> = t
+                .deps(ptx)?
+                .into_iter()
+                .map(|(m, f)| {
+                    (
+                        match m {
+                            DepMode::Created => 'c',
+                            DepMode::Modified => 'm',
+                        },
+                        f.name().as_str().to_string(),
+                    )
+                })
+                .collect();
+            rows.sort();
+            Ok(rows)
+        };
+        t.add_dep(&mut ptx, DepMode::Modified, "s1")?;
+        t.add_dep(&mut ptx, DepMode::Created, "s2")?;
+        out.push(snap(&t, &ptx)?);
+        t.zap_deps1(&mut ptx)?;
+        out.push(snap(&t, &ptx)?);
+        t.add_dep(&mut ptx, DepMode::Modified, "s1")?;
+        out.push(snap(&t, &ptx)?);
+        t.zap_deps2(&mut ptx)?;
+        out.push(snap(&t, &ptx)?);
+        Ok(out)
+    }
+}
+
 #[cfg(test)]
 mod tests {
     use super::*;
